@@ -10,6 +10,21 @@ import os
 
 import numpy as np
 
+MANIFEST = {
+    "category": "model_checking",
+    "engine": "histx",
+    "technique": "explicit-state exploration of cursor-operation histories on the real file objects against an "
+                 "integer cursor model",
+    "text": "Every in-range sequence over {read(n), read(), seek(k), seek(d,1), tell, len} to depth 3 (thorough 4) on one "
+            "handle and depth 2 (3) interleaved over two handles, without state merging, plus a BFS closure over the model "
+            "states (position, offsets-known, end-reached, last op) at any depth, for 11 format fixtures with and without "
+            "atom_indices; every step is executed on the real object and compared with the model and with the frames of a "
+            "full read. Right level: the property is a statement about all histories of a tiny state machine.",
+    "note": "Bounded: N=5 frames, 4 (xtc: 4 and 12) atoms; out-of-range operations are not issued; the full read is the "
+            "data oracle (anchored by C01/C02); .pyx logic is exercised as compiled from the generated C in the tree.",
+    "ref": "DESIGN.md §3 C18, §2.2",
+}
+
 from vlib import explore
 
 N = 5
